@@ -11,6 +11,13 @@ def loops(k, header, kw):
                 "  count <= 1 ==> count as nat == count_decl(__es@.take(__ei as int), variant_name@),\n"
                 "  count >= 2 ==> count_decl(__es@.take(__ei as int), variant_name@) >= 2,\n"
                 "decreases __es@.len() - __ei,")
+    mn = re.search(r"while\s+(__i\d+)\s*<\s*(__en|__sn)\.len\(\)", header)
+    if mn:
+        i, v = mn.group(1), mn.group(2)
+        r = i.replace("__i", "__r")
+        return (f"invariant {i} <= {v}@.len(), !{r} ==> forall|j: int| 0 <= j < {i} ==> (#[trigger] {v}@[j]).0@ != variant_name@,\n"
+                f"  {r} ==> exists|j: int| 0 <= j < {v}@.len() && (#[trigger] {v}@[j]).0@ == variant_name@,\n"
+                f"decreases {v}@.len() - {i},")
     if re.search(r"__i0\s*<", header):
         return ("invariant __i0 <= edef.variants@.len(),\n"
                 "  !__r0 ==> forall|j: int| 0 <= j < __i0 ==> (#[trigger] edef.variants@[j]).0.0@ != variant_name@,\n"
@@ -21,7 +28,7 @@ def loops(k, header, kw):
 
 UNIT = Unit(
     name="U-VARNAME",
-    properties=["C19"],
+    properties=["C19", "C02"],
     rules=["attrs"],
     describe="go::compile::variant_struct_name: when a variant name is declared by more than one enum the Go struct name is the mangled FULL name of the "
              "owning enum, a separator, and the mangled variant name — so `Lamp::State::On` and `Valve::State::On` (two packages, the same enum and variant "
@@ -42,10 +49,14 @@ UNIT = Unit(
                           r"let __es = goenv_enum_defs(goenv); let mut __ei: usize = 0; while __ei < __es.len() { let \1 = &__es[__ei]; __ei += 1;", 1),
                          (re.compile(r"\s*\n\s*\.(?=\w)"), ".", "*"),
                          (re.compile(r"\.any\(\|\((\w+), _\)\|\s*\1\.0\.as_str\(\) == (\w+)\)"), r".any(|__p| str_eq(tast_ident_str(&__p.0), \2))", 1),
+                         (re.compile(r"let names_a_type = "), "let __en = goenv_enum_names(goenv); let __sn = goenv_struct_names(goenv); let names_a_type = ", "*"),
+                         (re.compile(r"goenv\.enums\(\)\.any\(\|\(n, _\)\| n\.0 == variant_name\)"), "__en.iter().any(|n| str_eq(tast_ident_str(n), variant_name))", "*"),
+                         (re.compile(r"goenv\.structs\(\)\.any\(\|\(n, _\)\| n\.0 == variant_name\)"), "__sn.iter().any(|n| str_eq(tast_ident_str(n), variant_name))", "*"),
                          (re.compile(r"format!\(\s*\"\{\}([^\"{}]*)\{\}\",\s*(go_ident\([^()]*\)),\s*(go_ident\([^()]*\)),?\s*\)"), r'str_join3(&\2, "\1", &\3)', 1),
                          ("let mut count = 0;", "let mut count: usize = 0;")],
-           obligation="a variant name declared by at least two enums is emitted as <mangled full enum name><separator><mangled variant name>",
-           contract="ensures shared_variant(goenv, variant_name@) ==> qualified(r@, enum_name@, variant_name@),",
+           obligation="a variant name declared by at least two enums, or equal to the name of an enum or struct type, is emitted as <mangled full enum name><separator><mangled variant name>",
+           contract="ensures shared_variant(goenv, variant_name@) ==> qualified(r@, enum_name@, variant_name@),\n"
+                    "        names_a_type(goenv, variant_name@) ==> qualified(r@, enum_name@, variant_name@),",
            ghost=[("@loop-body:__ei <", "", "proof { lemma_count_take_step(__es@, __ei as int, variant_name@); }"),
                   ("@after-loop:__ei <", "", "proof { lemma_count_mono(__es@, __ei as int, variant_name@); assert(__es@.take(__es@.len() as int) =~= __es@); }")],
            loop_fn=loops),
